@@ -442,7 +442,7 @@ CHECKS["C26"] = dict(
         dict(name="harness_c26_trees", quick={"B": 1, "dense_mask": 1}, thorough={"B": 1, "dense_mask": 7, "_wall": 2400}),
     ],
     anchors=["SymEngine::matrix_add", "SymEngine::matrix_mul", "SymEngine::hadamard_product", "SymEngine::transpose", "SymEngine::trace", "SymEngine::is_zero(SymEngine::MatrixExpr", "SymEngine::is_symmetric", "SymEngine::is_toeplitz", "SymEngine::size("],
-    bounds="leaves: dense r x c (r, c in {1,2}) with symbolic integer entries |e|<=2 (3), diagonal and identity of size 1..2, zero r x c; one operation from {matrix_add, matrix_mul, hadamard_product, transpose, conjugate_matrix, trace} incl. all dimension mismatches; trees (A op1 B) op2 C and C op2 (A op1 B) over 2x2 leaves |e|<=1 (quick: A dense/diagonal/identity/zero, B and C diagonal/identity/zero; thorough: all three may be dense), n-ary forms; every entry of the result against exact integer arithmetic in the harness; size(); definite answers of is_zero, is_square, is_real, is_toeplitz, is_diagonal, is_symmetric, is_lower, is_upper against the dense matrix",
+    bounds="leaves: dense r x c (r, c in {1,2}) with symbolic integer entries |e|<=2 (3), diagonal and identity of size 1..2, zero r x c; one operation from {matrix_add, matrix_mul, hadamard_product, transpose, conjugate_matrix, trace, scalar multiple matrix_mul({k, A}) with a symbolic integer k} incl. all dimension mismatches; trees (A op1 B) op2 C and C op2 (A op1 B) over 2x2 leaves |e|<=1 (quick: A dense/diagonal/identity/zero, B and C diagonal/identity/zero; thorough: all three may be dense), n-ary forms; every entry of the result against exact integer arithmetic in the harness; size(); definite answers of is_zero, is_square, is_real, is_toeplitz, is_diagonal, is_symmetric, is_lower, is_upper against the dense matrix",
     outside=["matrix symbols and symbolic dimensions (no concrete value to compare with)", "matrices larger than 2x2", "complex entries"],
 )
 
